@@ -220,8 +220,7 @@ Definition valid_fields (x : rtcp) : bool :=
   | NACK s m l => u32b s && u32b m && negb (len l =? 0) && forallb u16b l
   | REMB s br ss => u32b s && (0 <=? br) && (br <? 18446744073709551616) && (len ss <=? 255) && forallb u32b ss
   | TWCC s m ba c rf fb pl =>
-      u32b s && u32b m && u16b ba && u16b c && (0 <=? rf) && (rf <? 16777216) && byteb fb && bytesb pl &&
-      (len pl mod 4 =? 0)
+      u32b s && u32b m && u16b ba && u16b c && (0 <=? rf) && (rf <? 16777216) && byteb fb && bytesb pl
   end.
 Definition valid (x : rtcp) : bool := valid_fields x && fits x.
 
@@ -334,30 +333,6 @@ Proof.
   rewrite (drop_app_n 4 (be32 0)) by reflexivity.
   rewrite parse_fir_entries_enc; [reflexivity|exact Hv|].
   rewrite !app_length. pose proof (len_flat_fir rq) as Hfp. unfold len in Hfp. lia.
-Qed.
-
-(* ------------------------------------------------------------------ TWCC *)
-Lemma twcc_ok s m ba c rf fb pl : valid_fields (TWCC s m ba c rf fb pl) = true -> one_ok (TWCC s m ba c rf fb pl).
-Proof.
-  cbn [valid_fields]. rewrite !andb_true_iff. intros [[[[[[[[H1 H2] H3] H4] H5] H6] H7] H8] H9].
-  apply u32b_spec in H1, H2. apply u16b_spec in H3, H4. apply Z.leb_le in H5. apply Z.ltb_lt in H6.
-  apply Z.eqb_eq in H9.
-  exists RTCP_RTPFB_TWCC, RTCP_RTPFB, (build_twcc s m ba c rf fb pl). split; [reflexivity|].
-  assert (Hm : Z.land rf TWCC_REF_MASK = rf).
-  { rconsts. change 16777215 with (Z.ones 24). rewrite Z.land_ones by lia. apply Z.mod_small. change (2 ^ 24) with 16777216. lia. }
-  unfold build_twcc. rewrite Hm. cbn [be32 tl].
-  set (body := be32 s ++ be32 m ++ be16 ba ++ be16 c ++ [rf / 65536 mod 256; rf / 256 mod 256; rf mod 256] ++ [fb] ++ pl).
-  assert (Hl : len body = 16 + len pl) by (unfold body; rewrite !len_app, !len_be32, !len_be16; change (len [rf / 65536 mod 256; rf / 256 mod 256; rf mod 256]) with 3; change (len [fb]) with 1; lia).
-  pose proof (len_nonneg pl) as Hn.
-  rewrite pad4_aligned by (rewrite Hl; Z.div_mod_to_equations; lia).
-  unfold parse_one. rconsts. change (Z.land 15 31) with 15. cbn [Z.eqb Pos.eqb].
-  unfold parse_twcc. rconsts. rewrite Hl.
-  destruct (16 + len pl <? 16) eqn:E; [apply Z.ltb_lt in E; lia|].
-  unfold body. rewrite get_u32_be32 by exact H1. cbn [bind]. rewrite get_u32_be32 by exact H2. cbn [bind].
-  rewrite get_u16_be16 by exact H3. cbn [bind]. rewrite get_u16_be16 by exact H4. cbn [bind app get_u8].
-  assert (Hr : u32_of 0 (rf / 65536 mod 256) (rf / 256 mod 256) (rf mod 256) = rf).
-  { unfold u32_of. Z.div_mod_to_equations. lia. }
-  rewrite Hr. reflexivity.
 Qed.
 
 (* ------------------------------------------------------------------ NACK *)
@@ -717,22 +692,170 @@ Proof.
 Qed.
 
 (* ------------------------------------------------------------------ every type, then compound packets *)
-Lemma one_ok_all x : valid_fields x = true -> one_ok x.
-Proof.
-  destruct x; intros H.
-  - apply sr_ok; exact H.
-  - apply rr_ok; exact H.
-  - apply sdes_ok; exact H.
-  - apply bye_ok; exact H.
-  - apply pli_ok; exact H.
-  - apply fir_ok; exact H.
-  - apply nack_ok; exact H.
-  - apply remb_ok; exact H.
-  - apply twcc_ok; exact H.
-Qed.
-
 Lemma len_written fmt pt body : 4 <= len (write_rtcp_packet fmt pt body).
 Proof. unfold write_rtcp_packet. rewrite !len_cons, len_app, len_be16. pose proof (len_nonneg (pad4 body)). lia. Qed.
+
+(* per-packet statement at the level of the compound walk *)
+Definition pkt_ok (x : rtcp) : Prop :=
+  exists bs, marshal_one x = Ok bs /\ 4 <= len bs /\
+    (len bs <= 262144 -> forall f rest,
+       parse_rtcp_loop (S f) (bs ++ rest) = (r <- parse_rtcp_loop f rest ;; Ok (canon x :: r))).
+
+Lemma one_ok_pkt x : one_ok x -> pkt_ok x.
+Proof.
+  intros (fmt & pt & body & Hm & Hp). exists (write_rtcp_packet fmt pt body).
+  split; [exact Hm|]. split; [apply len_written|]. intros Hl f rest.
+  rewrite loop_written.
+  - rewrite Hp. cbn [bind]. destruct (parse_rtcp_loop f rest); reflexivity.
+  - unfold write_rtcp_packet in Hl. rewrite !len_cons, len_app, len_be16 in Hl. lia.
+Qed.
+
+(* ------------------------------------------------------------------ TWCC (padded writer) *)
+Definition b0_pad_check (k : Z) : bool :=
+  let b0 := Z.lor (Z.lor (Z.shiftl RTP_VERSION WR_VERSION_SHIFT) (Z.land k WR_FMT_MASK)) WP_PAD_BIT in
+  (Z.shiftr b0 R_VERSION_SHIFT =? RTP_VERSION) && flag b0 R_PAD_MASK && (Z.land b0 R_FMT_MASK =? k).
+Lemma b0_pad k :
+  0 <= k < 32 ->
+  let b0 := Z.lor (Z.lor (Z.shiftl RTP_VERSION WR_VERSION_SHIFT) (Z.land k WR_FMT_MASK)) WP_PAD_BIT in
+  Z.shiftr b0 R_VERSION_SHIFT = RTP_VERSION /\ flag b0 R_PAD_MASK = true /\ Z.land b0 R_FMT_MASK = k.
+Proof.
+  intros Hk. assert (H : b0_pad_check k = true) by (apply (range_forall 32 b0_pad_check); [vm_compute; reflexivity|lia]).
+  unfold b0_pad_check in H. cbv zeta in *. rewrite !andb_true_iff in H. destruct H as [[H1 H2] H3].
+  apply Z.eqb_eq in H1, H3. auto.
+Qed.
+
+Lemma idx_app_mid pre x post : idx (pre ++ x :: post) (len pre) = Ok x.
+Proof.
+  unfold idx. rewrite len_app, len_cons. pose proof (len_nonneg pre). pose proof (len_nonneg post).
+  destruct ((0 <=? len pre) && (len pre <? len pre + (1 + len post))) eqn:E.
+  - unfold len. rewrite Nat2Z.id, app_nth2, Nat.sub_diag by lia. reflexivity.
+  - exfalso. rewrite andb_false_iff, Z.leb_gt, Z.ltb_ge in E. lia.
+Qed.
+
+Lemma removelast_app_single {A} (l : list A) x : removelast (l ++ [x]) = l.
+Proof. apply removelast_last. Qed.
+
+Lemma padded_body body pad :
+  1 <= pad <= 3 ->
+  removelast (body ++ repeat 0 (Z.to_nat pad)) ++ [cast_u8 pad] = body ++ repeat 0 (Z.to_nat (pad - 1)) ++ [pad].
+Proof.
+  intros Hp. replace (Z.to_nat pad) with (S (Z.to_nat (pad - 1))) by lia.
+  replace (repeat 0 (S (Z.to_nat (pad - 1)))) with (repeat 0 (Z.to_nat (pad - 1)) ++ [0])
+    by (clear; induction (Z.to_nat (pad - 1)) as [|n IH]; [reflexivity|cbn [repeat app] in *; rewrite IH; reflexivity]).
+  rewrite app_assoc, removelast_last, <- app_assoc.
+  unfold cast_u8. rewrite wrapu_small by (change (2 ^ 8) with 256; lia). reflexivity.
+Qed.
+
+Lemma loop_written_padded f fmt pt body rest :
+  len (write_rtcp_packet_padded fmt pt body) <= 262144 ->
+  parse_rtcp_loop (S f) (write_rtcp_packet_padded fmt pt body ++ rest) =
+  (o <- parse_one (Z.land fmt 31) pt body ;;
+   r <- parse_rtcp_loop f rest ;;
+   Ok (cons_opt o r)).
+Proof.
+  unfold write_rtcp_packet_padded. unfold WP_ALIGN.
+  set (pad := (4 - len body mod 4) mod 4). pose proof (len_nonneg body) as Hn.
+  assert (Hpr : 0 <= pad <= 3) by (unfold pad; Z.div_mod_to_equations; lia).
+  destruct (pad >? 0) eqn:Ep.
+  2:{ rewrite Z.gtb_ltb in Ep. apply Z.ltb_ge in Ep. assert (pad = 0) by lia.
+      assert (Hal : len body mod 4 = 0) by (unfold pad in *; Z.div_mod_to_equations; lia).
+      intros Hfit. rewrite loop_written.
+      - rewrite pad4_aligned by exact Hal. reflexivity.
+      - rewrite pad4_aligned by exact Hal. unfold write_rtcp_packet in Hfit.
+        rewrite pad4_aligned in Hfit by exact Hal. rewrite !len_cons, len_app, len_be16 in Hfit. lia. }
+  apply Z.gtb_lt in Ep. rewrite padded_body by lia.
+  set (zs := repeat 0 (Z.to_nat (pad - 1))).
+  set (pb := body ++ zs ++ [pad]).
+  assert (Hlz : len zs = pad - 1) by (unfold zs; rewrite len_repeat; lia).
+  assert (Hlpb : len pb = len body + pad) by (unfold pb; rewrite !len_app, Hlz, len_cons, len_nil; lia).
+  assert (Hal : len pb mod 4 = 0) by (rewrite Hlpb; unfold pad; Z.div_mod_to_equations; lia).
+  unfold write_rtcp_packet. rewrite (pad4_aligned pb Hal).
+  assert (Hw : forall n, n = len pb -> n + 4 <= 262144 -> cast_u16 (Z.max 0 ((n + 4) / 4 - 1)) = n / 4).
+  { intros n -> Hf. unfold cast_u16. rewrite wrapu_small; [Z.div_mod_to_equations; lia|]. change (2 ^ 16) with 65536. Z.div_mod_to_equations. lia. }
+  set (b0 := Z.lor (Z.lor (Z.shiftl RTP_VERSION WR_VERSION_SHIFT) (Z.land fmt WR_FMT_MASK)) WP_PAD_BIT).
+  intros Hfit. rewrite !len_cons, len_app, len_be16 in Hfit.
+  rewrite (Hw (len pb) eq_refl ltac:(lia)). fold b0.
+  assert (Hb0 : Z.shiftr b0 R_VERSION_SHIFT = RTP_VERSION /\ flag b0 R_PAD_MASK = true /\ Z.land b0 R_FMT_MASK = Z.land fmt 31).
+  { pose proof (b0_pad (Z.land fmt 31) (land31_range fmt)) as H. cbv zeta in H.
+    unfold WR_FMT_MASK in *. rewrite land31_idem in H. exact H. }
+  destruct Hb0 as (V & P & F).
+  cbn [app be16]. set (l1 := len pb / 4 / 256 mod 256). set (l2 := len pb / 4 mod 256).
+  cbn [parse_rtcp_loop].
+  assert (Hlen : len (b0 :: pt :: l1 :: l2 :: pb ++ rest) = 4 + len pb + len rest) by (rewrite !len_cons, len_app; lia).
+  pose proof (len_nonneg rest) as Hr.
+  rewrite Hlen. destruct (4 + len pb + len rest <? 4) eqn:E4; [apply Z.ltb_lt in E4; lia|].
+  rewrite idx0. cbn [bind]. rewrite V, Z.eqb_refl. cbn [negb]. rewrite P, F.
+  rewrite idx1. cbn [bind]. rewrite idx2. cbn [bind]. rewrite idx3. cbn [bind].
+  assert (Hu : u16_of l1 l2 = len pb / 4).
+  { unfold l1, l2. apply be16_of. unfold u16. Z.div_mod_to_equations. lia. }
+  rewrite Hu. replace ((len pb / 4 + 1) * 4) with (len pb + 4) by (Z.div_mod_to_equations; lia).
+  destruct (4 + len pb + len rest <? len pb + 4) eqn:E5; [apply Z.ltb_lt in E5; lia|].
+  (* the pad count is the last octet of the packet *)
+  assert (Hraw : b0 :: pt :: l1 :: l2 :: pb ++ rest = ([b0; pt; l1; l2] ++ body ++ zs) ++ pad :: rest).
+  { unfold pb. rewrite <- !app_assoc. reflexivity. }
+  assert (Hpre : len ([b0; pt; l1; l2] ++ body ++ zs) = len pb + 4 - 1).
+  { rewrite !len_app, Hlz, Hlpb. change (len [b0; pt; l1; l2]) with 4. lia. }
+  assert (Hidx : idx (b0 :: pt :: l1 :: l2 :: pb ++ rest) (len pb + 4 - 1) = Ok pad).
+  { rewrite Hraw, <- Hpre. apply idx_app_mid. }
+  rewrite Hidx. cbn [bind].
+  assert (Epad : (pad =? 0) || (pad >? Z.max 0 (len pb + 4 - 4)) = false).
+  { apply orb_false_iff. split; [apply Z.eqb_neq; lia|]. rewrite Z.gtb_ltb. apply Z.ltb_ge. lia. }
+  rewrite Epad. unfold checked_sub. destruct (pad <=? len pb + 4) eqn:Eq; [|apply Z.leb_gt in Eq; lia]. cbn [bind].
+  assert (Hs : slice (b0 :: pt :: l1 :: l2 :: pb ++ rest) 4 (len pb + 4 - pad) = Ok body).
+  { rewrite slice_ok by (rewrite ?Hlen; lia).
+    change (drop 4 (b0 :: pt :: l1 :: l2 :: pb ++ rest)) with (pb ++ rest).
+    replace (len pb + 4 - pad - 4) with (len body) by lia. unfold pb. rewrite <- app_assoc, take_app_exact. reflexivity. }
+  rewrite Hs. cbn [bind].
+  assert (Hd : drop (len pb + 4) (b0 :: pt :: l1 :: l2 :: pb ++ rest) = rest).
+  { change (b0 :: pt :: l1 :: l2 :: pb ++ rest) with ([b0; pt; l1; l2] ++ pb ++ rest). rewrite app_assoc.
+    apply drop_app_n. rewrite len_app. change (len [b0; pt; l1; l2]) with 4. lia. }
+  rewrite Hd. destruct (parse_one (Z.land fmt 31) pt body) as [o| |]; cbn [bind]; try reflexivity.
+Qed.
+
+Lemma len_written_padded fmt pt body : 4 <= len (write_rtcp_packet_padded fmt pt body).
+Proof.
+  unfold write_rtcp_packet_padded. destruct (_ >? 0); [|apply len_written].
+  match goal with |- context [write_rtcp_packet fmt pt ?b] => pose proof (len_written fmt pt b) as H; unfold write_rtcp_packet in *  end.
+  rewrite !len_cons in *. lia.
+Qed.
+
+Lemma twcc_pkt_ok s m ba c rf fb pl : valid_fields (TWCC s m ba c rf fb pl) = true -> pkt_ok (TWCC s m ba c rf fb pl).
+Proof.
+  cbn [valid_fields]. rewrite !andb_true_iff. intros [[[[[[[H1 H2] H3] H4] H5] H6] H7] H8].
+  apply u32b_spec in H1, H2. apply u16b_spec in H3, H4. apply Z.leb_le in H5. apply Z.ltb_lt in H6.
+  exists (write_rtcp_packet_padded RTCP_RTPFB_TWCC RTCP_RTPFB (build_twcc s m ba c rf fb pl)).
+  split; [reflexivity|]. split; [apply len_written_padded|]. intros Hfit f rest.
+  rewrite loop_written_padded by exact Hfit.
+  assert (Hm : Z.land rf TWCC_REF_MASK = rf).
+  { rconsts. change 16777215 with (Z.ones 24). rewrite Z.land_ones by lia. apply Z.mod_small. change (2 ^ 24) with 16777216. lia. }
+  unfold build_twcc. rewrite Hm. cbn [be32 tl].
+  set (body := be32 s ++ be32 m ++ be16 ba ++ be16 c ++ [rf / 65536 mod 256; rf / 256 mod 256; rf mod 256] ++ [fb] ++ pl).
+  assert (Hl : len body = 16 + len pl)
+    by (unfold body; rewrite !len_app, !len_be32, !len_be16; change (len [rf / 65536 mod 256; rf / 256 mod 256; rf mod 256]) with 3; change (len [fb]) with 1; lia).
+  pose proof (len_nonneg pl) as Hn.
+  unfold parse_one. rconsts. change (Z.land 15 31) with 15. cbn [Z.eqb Pos.eqb].
+  unfold parse_twcc. rconsts. rewrite Hl.
+  destruct (16 + len pl <? 16) eqn:E; [apply Z.ltb_lt in E; lia|].
+  unfold body. rewrite get_u32_be32 by exact H1. cbn [bind]. rewrite get_u32_be32 by exact H2. cbn [bind].
+  rewrite get_u16_be16 by exact H3. cbn [bind]. rewrite get_u16_be16 by exact H4. cbn [bind app get_u8].
+  assert (Hr : u32_of 0 (rf / 65536 mod 256) (rf / 256 mod 256) (rf mod 256) = rf).
+  { unfold u32_of. Z.div_mod_to_equations. lia. }
+  rewrite Hr. cbn [bind canon]. destruct (parse_rtcp_loop f rest); reflexivity.
+Qed.
+
+Lemma pkt_ok_all x : valid_fields x = true -> pkt_ok x.
+Proof.
+  destruct x; intros H.
+  - apply one_ok_pkt, sr_ok; exact H.
+  - apply one_ok_pkt, rr_ok; exact H.
+  - apply one_ok_pkt, sdes_ok; exact H.
+  - apply one_ok_pkt, bye_ok; exact H.
+  - apply one_ok_pkt, pli_ok; exact H.
+  - apply one_ok_pkt, fir_ok; exact H.
+  - apply one_ok_pkt, nack_ok; exact H.
+  - apply one_ok_pkt, remb_ok; exact H.
+  - apply twcc_pkt_ok; exact H.
+Qed.
 
 Lemma compound_aux xs :
   forallb valid xs = true ->
@@ -742,13 +865,13 @@ Proof.
   induction xs as [|x xs IH]; intros Hv.
   - exists []. split; [reflexivity|]. split; [cbn; lia|]. intros f _. destruct f; reflexivity.
   - cbn [forallb] in Hv. apply andb_true_iff in Hv as [Hx Hv]. unfold valid in Hx. apply andb_true_iff in Hx as [Hf Hfit].
-    destruct (one_ok_all x Hf) as (fmt & pt & body & Hm & Hp).
+    destruct (pkt_ok_all x Hf) as (b & Hm & Hl4 & Hp).
     destruct (IH Hv) as (bs & Hms & Hlen & Hloop).
-    exists (write_rtcp_packet fmt pt body ++ bs). split; [cbn [marshal_rtcp]; rewrite Hm; cbn [bind]; rewrite Hms; reflexivity|].
-    split; [rewrite len_app, len_cons; pose proof (len_written fmt pt body); lia|].
+    exists (b ++ bs). split; [cbn [marshal_rtcp]; rewrite Hm; cbn [bind]; rewrite Hms; reflexivity|].
+    split; [rewrite len_app, len_cons; lia|].
     intros f Hfl. destruct f as [|f]; [cbn in Hfl; lia|]. cbn [length] in Hfl.
-    rewrite loop_written by (eapply fits_len; eassumption).
-    rewrite Hp. cbn [bind]. rewrite Hloop by lia. reflexivity.
+    unfold fits in Hfit. rewrite Hm in Hfit. apply Z.leb_le in Hfit.
+    rewrite (Hp Hfit). rewrite Hloop by lia. reflexivity.
 Qed.
 
 Theorem rtcp_roundtrip xs :
@@ -819,13 +942,18 @@ Proof.
   destruct (len text >? 255) eqn:E; [reflexivity|rewrite Z.gtb_ltb in E; apply Z.ltb_ge in E; lia].
 Qed.
 
-(* open finding F26: an opaque TWCC payload whose length is not a multiple of 4 comes back zero-extended *)
+(* finding F26 (fixed): a TWCC whose opaque payload is not 32-bit aligned is written with RTCP padding and
+   comes back unchanged -- any payload length *)
 Definition twcc_witness : rtcp := TWCC 1 2 3 1 5 0 [32].
-Theorem twcc_unaligned_refuted :
-  valid_fields (TWCC 1 2 3 1 5 0 [32; 0; 0; 0]) = true /\
-  exists bs, marshal_rtcp [twcc_witness] = Ok bs /\ parse_rtcp bs = Ok [TWCC 1 2 3 1 5 0 [32; 0; 0; 0]] /\
-             parse_rtcp bs <> Ok [twcc_witness].
-Proof. split; [reflexivity|]. eexists. split; [vm_compute; reflexivity|]. split; [vm_compute; reflexivity|]. vm_compute. discriminate. Qed.
+Theorem twcc_unaligned_roundtrip :
+  (forall s m ba c rf fb pl, valid (TWCC s m ba c rf fb pl) = true ->
+     exists bs, marshal_rtcp [TWCC s m ba c rf fb pl] = Ok bs /\ parse_rtcp bs = Ok [TWCC s m ba c rf fb pl]) /\
+  valid twcc_witness = true /\
+  marshal_rtcp [twcc_witness] = Ok [175; 205; 0; 5; 0; 0; 0; 1; 0; 0; 0; 2; 0; 3; 0; 1; 0; 0; 5; 0; 32; 0; 0; 3].
+Proof.
+  split; [|split; vm_compute; reflexivity].
+  intros s m ba c rf fb pl Hv. exact (rtcp_roundtrip_one _ Hv).
+Qed.
 
 (* the premises are satisfiable: one compound with every packet type at boundary values *)
 Definition example_compound : list rtcp :=
@@ -836,7 +964,7 @@ Definition example_compound : list rtcp :=
     PLI 1 2; FIR 1 [mkFir 2 255];
     NACK 1 2 [65535; 0; 65534; 1; 16; 0];
     REMB 1 18446744073709551615 [1; 2]; REMB 1 262143 [];
-    TWCC 1 2 65535 65535 16777215 255 [1; 2; 3; 4] ].
+    TWCC 1 2 65535 65535 16777215 255 [1; 2; 3; 4]; TWCC 1 2 0 0 0 0 [9; 8; 7] ].
 Example example_compound_ok :
   forallb valid example_compound = true /\
   exists bs, marshal_rtcp example_compound = Ok bs /\ parse_rtcp bs = Ok (map canon example_compound).
